@@ -168,6 +168,9 @@ struct Query {
     lite: String,
     logical: String,
     ordered: bool,
+    /// LIMIT/OFFSET WITHOUT ORDER BY: `sql` carries it, `lite` and `logical` do not (the oracle
+    /// answers the unlimited query; the check compares count and membership only)
+    limit: Option<(i64, i64)>,
 }
 
 fn scan_plan(t: usize, ncols: usize) -> String {
@@ -427,7 +430,15 @@ fn gen_query(r: &mut Rng, t0: &Tbl, t1: &Tbl) -> Query {
             shape += " limit";
         }
     }
-    Query { shape, sql, lite, logical: plan, ordered }
+    let mut limit = None;
+    if !ordered && r.chance(1, 5) {
+        let n = *r.pick(&[0i64, 1, 2, 3, 5, 20]);
+        let off = *r.pick(&[0i64, 0, 1, 2, 4]);
+        sql += &format!(" LIMIT {n} OFFSET {off}");
+        shape += " limit-unordered";
+        limit = Some((n, off));
+    }
+    Query { shape, sql, lite, logical: plan, ordered, limit }
 }
 
 fn gen(n: usize, out: &str) {
@@ -438,7 +449,8 @@ fn gen(n: usize, out: &str) {
         let t1 = gen_table(&mut r, "t1", vec![("x", Ty::I32, true), ("y", Ty::I64, true), ("z", Ty::I32, false), ("w", Ty::Str, true)]);
         let q = gen_query(&mut r, &t0, &t1);
         let tj = |t: &Tbl| json!({"name": t.name, "cols": t.cols.iter().map(|c| json!([c.0, c.1.tag(), c.1.sql()])).collect::<Vec<_>>(), "chunks": t.chunks});
-        let v = json!({"id": id, "shape": q.shape, "tables": [tj(&t0), tj(&t1)], "sql": q.sql, "sqlite": q.lite, "logical": q.logical, "ordered": q.ordered});
+        let v = json!({"id": id, "shape": q.shape, "tables": [tj(&t0), tj(&t1)], "sql": q.sql, "sqlite": q.lite, "logical": q.logical, "ordered": q.ordered,
+            "limit": q.limit.map(|l| json!([l.0, l.1])), "disk": r.chance(2, 5)});
         s += &v.to_string();
         s.push('\n');
     }
@@ -459,72 +471,129 @@ fn rows_text(rows: &[Vec<String>]) -> String {
     s
 }
 
-fn run(path: &str) {
-    let rt = runtime();
-    for line in read_lines(path) {
-        let v: Value = serde_json::from_str(&line).expect("case json");
-        let id = v["id"].as_str().map(|s| s.to_string()).unwrap_or_else(|| v["id"].to_string());
-        let db = risinglight::Database::new_in_memory();
-        let mut ok = true;
-        for t in v["tables"].as_array().unwrap() {
-            let cols: Vec<String> = t["cols"].as_array().unwrap().iter().map(|c| format!("{} {}", c[0].as_str().unwrap(), c[2].as_str().unwrap())).collect();
-            let sql = format!("create table {}({})", t["name"].as_str().unwrap(), cols.join(", "));
-            if !matches!(run_sql(&rt, &db, &sql), Outcome::Ok(_)) {
+fn run_engine(rt: &tokio::runtime::Runtime, v: &Value, id: &str, disk: bool) {
+    let db = if disk {
+        match catch(|| rt.block_on(risinglight::Database::new_on_disk(risinglight::storage::SecondaryStorageOptions::default_for_test()))) {
+            Ok(db) => db,
+            Err(_) => {
+                println!("{id}\tloaderr ; \t");
+                return;
+            }
+        }
+    } else {
+        risinglight::Database::new_in_memory()
+    };
+    let mut ok = true;
+    for t in v["tables"].as_array().unwrap() {
+        let cols: Vec<String> = t["cols"].as_array().unwrap().iter().map(|c| format!("{} {}", c[0].as_str().unwrap(), c[2].as_str().unwrap())).collect();
+        let sql = format!("create table {}({})", t["name"].as_str().unwrap(), cols.join(", "));
+        if !matches!(run_sql(rt, &db, &sql), Outcome::Ok(_)) {
+            ok = false;
+        }
+        for c in t["chunks"].as_array().unwrap() {
+            let rows: Vec<String> = c
+                .as_array()
+                .unwrap()
+                .iter()
+                .map(|r| format!("({})", r.as_array().unwrap().iter().map(|x| canon_to_sql(x.as_str().unwrap())).collect::<Vec<_>>().join(",")))
+                .collect();
+            let sql = format!("insert into {} values {}", t["name"].as_str().unwrap(), rows.join(","));
+            if !matches!(run_sql(rt, &db, &sql), Outcome::Ok(_)) {
                 ok = false;
             }
-            for c in t["chunks"].as_array().unwrap() {
-                let rows: Vec<String> = c
-                    .as_array()
-                    .unwrap()
-                    .iter()
-                    .map(|r| format!("({})", r.as_array().unwrap().iter().map(|x| canon_to_sql(x.as_str().unwrap())).collect::<Vec<_>>().join(",")))
-                    .collect();
-                let sql = format!("insert into {} values {}", t["name"].as_str().unwrap(), rows.join(","));
-                if !matches!(run_sql(&rt, &db, &sql), Outcome::Ok(_)) {
-                    ok = false;
-                }
+        }
+    }
+    if !ok {
+        println!("{id}\tloaderr ; \t");
+        return;
+    }
+    let sql = v["sql"].as_str().unwrap();
+    let trace = std::env::var("C02_TRACE").is_ok();
+    // bind + optimise exactly like Database::run, keep the plan text
+    let planned = catch(|| {
+        let bound = db.verif_bind(sql)?;
+        if trace {
+            eprintln!("{id} bound {}", bound[0]);
+        }
+        let opt = rt.block_on(db.verif_optimizer())?;
+        if trace {
+            eprintln!("{id} optimizer ready");
+        }
+        let p = opt.optimize(bound[0].clone());
+        if trace {
+            eprintln!("{id} optimised {p}");
+        }
+        Ok::<_, risinglight::Error>(p)
+    });
+    let (plan_text, plan_rows) = match planned {
+        Err(p) => (format!("panic {}", p.replace(['\t', '\n'], " ")), None),
+        Ok(Err(e)) => (format!("err {}", e.to_string().replace(['\t', '\n'], " ")), None),
+        Ok(Ok(plan)) => {
+            let r = catch(|| rt.block_on(db.verif_run_plan(&plan)));
+            let rows = match r {
+                Ok(Ok(chunks)) => Some(canon_rows_of(&chunks)),
+                _ => None,
+            };
+            (plan.to_string(), rows)
+        }
+    };
+    let direct = run_sql(rt, &db, sql);
+    let (status, rows) = match &direct {
+        Outcome::Ok(rows) => ("ok".to_string(), rows.clone()),
+        Outcome::Err(e) => (format!("err {}", e.replace(['\t', '\n', ';'], " ")), vec![]),
+        Outcome::Panic(p) => (format!("panic {}", p.replace(['\t', '\n', ';'], " ")), vec![]),
+    };
+    // the plan we print must be the plan that produced the answer
+    let mut consistent = "same";
+    if let (Outcome::Ok(a), Some(b)) = (&direct, &plan_rows) {
+        let (mut a2, mut b2) = (a.clone(), b.clone());
+        a2.sort();
+        b2.sort();
+        if a2 != b2 {
+            consistent = "plan-run-differs";
+        }
+    }
+    println!("{id}\t{status} ; {}\t{plan_text}\t{consistent}", rows_text(&rows));
+    // (no shutdown for the disk engine: it waits for the 1 s compactor tick; the database and its
+    // background tasks are dropped with `db`, everything lives in the in-memory IO backend)
+}
+
+/// Watchdog: a statement that does not come back within `C02_TIMEOUT_S` (default 20 s) is reported
+/// as `timeout` and the process exits with code 3 (a stuck optimizer can not be interrupted); the
+/// check restarts the harness after that case (`c02 run <cases> <first line index>`).
+static CURRENT: std::sync::Mutex<Option<(String, std::time::Instant)>> = std::sync::Mutex::new(None);
+
+fn begin(key: &str) {
+    *CURRENT.lock().unwrap() = Some((key.to_string(), std::time::Instant::now()));
+}
+
+fn run(path: &str, start: usize) {
+    let limit: u64 = std::env::var("C02_TIMEOUT_S").ok().and_then(|s| s.parse().ok()).unwrap_or(20);
+    std::thread::spawn(move || loop {
+        std::thread::sleep(std::time::Duration::from_millis(250));
+        let cur = CURRENT.lock().unwrap().clone();
+        if let Some((key, t0)) = cur {
+            if t0.elapsed().as_secs() >= limit {
+                println!("{key}\ttimeout ; \t\tstuck");
+                std::process::exit(3);
             }
         }
-        if !ok {
-            println!("{id}\tloaderr ; \t");
+    });
+    let rt = runtime();
+    for (k, line) in read_lines(path).into_iter().enumerate() {
+        if k < start {
             continue;
         }
-        let sql = v["sql"].as_str().unwrap();
-        // bind + optimise exactly like Database::run, keep the plan text
-        let planned = catch(|| {
-            let bound = db.verif_bind(sql)?;
-            let opt = rt.block_on(db.verif_optimizer())?;
-            Ok::<_, risinglight::Error>(opt.optimize(bound[0].clone()))
-        });
-        let (plan_text, plan_rows) = match planned {
-            Err(p) => (format!("panic {}", p.replace(['\t', '\n'], " ")), None),
-            Ok(Err(e)) => (format!("err {}", e.to_string().replace(['\t', '\n'], " ")), None),
-            Ok(Ok(plan)) => {
-                let r = catch(|| rt.block_on(db.verif_run_plan(&plan)));
-                let rows = match r {
-                    Ok(Ok(chunks)) => Some(canon_rows_of(&chunks)),
-                    _ => None,
-                };
-                (plan.to_string(), rows)
-            }
-        };
-        let direct = run_sql(&rt, &db, sql);
-        let (status, rows) = match &direct {
-            Outcome::Ok(rows) => ("ok".to_string(), rows.clone()),
-            Outcome::Err(e) => (format!("err {}", e.replace(['\t', '\n', ';'], " ")), vec![]),
-            Outcome::Panic(p) => (format!("panic {}", p.replace(['\t', '\n', ';'], " ")), vec![]),
-        };
-        // the plan we print must be the plan that produced the answer
-        let mut consistent = "same";
-        if let (Outcome::Ok(a), Some(b)) = (&direct, &plan_rows) {
-            let (mut a2, mut b2) = (a.clone(), b.clone());
-            a2.sort();
-            b2.sort();
-            if a2 != b2 {
-                consistent = "plan-run-differs";
-            }
+        let v: Value = serde_json::from_str(&line).expect("case json");
+        let id = v["id"].as_str().map(|s| s.to_string()).unwrap_or_else(|| v["id"].to_string());
+        begin(&id);
+        run_engine(&rt, &v, &id, false);
+        if v["disk"].as_bool().unwrap_or(false) && std::env::var("C02_NO_DISK").is_err() {
+            let key = format!("{id}@disk");
+            begin(&key);
+            run_engine(&rt, &v, &key, true);
         }
-        println!("{id}\t{status} ; {}\t{plan_text}\t{consistent}", rows_text(&rows));
+        *CURRENT.lock().unwrap() = None;
     }
 }
 
@@ -532,7 +601,7 @@ fn main() {
     let args: Vec<String> = std::env::args().collect();
     match args.get(1).map(|s| s.as_str()) {
         Some("gen") => gen(args[2].parse().unwrap(), &args[3]),
-        Some("run") => run(&args[2]),
+        Some("run") => run(&args[2], args.get(3).and_then(|s| s.parse().ok()).unwrap_or(0)),
         _ => panic!("usage: c02 gen <n> <out> | c02 run <cases>"),
     }
 }
